@@ -11,8 +11,7 @@ package zkprm
 
 //@ func (*Proof).Verify
 //@   nopanic[C05]
-//@   modifies nothing
-//@   allocates
+//@   modifies hstate(hash)
 //@   requires pedok(public.Aux) && hash != nil && hash.h != nil
 
 //@ func challenge
